@@ -706,7 +706,15 @@ pub enum OpKind {
   /// `objects[obj] == objects[other]` through `dyn Source`
   Eq { other: usize },
   /// deep clone (`dyn_clone::clone_box`), then run `then` on the clone
-  CloneThen { then: Box<OpKind> },
+  CloneThen {
+    then: Box<OpKind>,
+    /// `Some(warm)`: the clone is *orphaned* first — run `warm` on the first
+    /// clone (its answer is not kept), clone that clone, drop the first clone,
+    /// let the allocator reuse what it freed, and run `then` on the second
+    /// clone. A clone must own (or co-own) everything it reads.
+    #[serde(default)]
+    orphan: Option<Box<OpKind>>,
+  },
   /// deep clone, then `original == clone`
   EqClone,
   /// use `objects[obj]` as a `HashMap` key, then look `objects[probe]` up
@@ -762,7 +770,8 @@ impl OpKind {
       OpKind::Hash => "hash".into(),
       OpKind::UpdateHash => "update_hash".into(),
       OpKind::Eq { .. } => "eq".into(),
-      OpKind::CloneThen { then } => format!("clone>{}", then.label()),
+      OpKind::CloneThen { then, orphan: None } => format!("clone>{}", then.label()),
+      OpKind::CloneThen { then, orphan: Some(w) } => format!("clone>{}>clone>drop>{}", w.label(), then.label()),
       OpKind::EqClone => "eq_clone".into(),
       OpKind::Lookup { .. } => "lookup".into(),
       OpKind::CloneEditObserve { then, .. } => format!("clone>edit>{}", then.label()),
